@@ -193,14 +193,14 @@ package bbolt
 
 //@ func (*Bucket).rebalance
 //@   opaque
-//@   ensures txframe(b.tx) && b.tx.meta.pgid == old(b.tx.meta.pgid) && unsynced == old(unsynced) && nwrites == old(nwrites)
+//@   ensures b.tx == old(b.tx) && txframe(b.tx) && b.tx.meta.pgid == old(b.tx.meta.pgid) && unsynced == old(unsynced) && nwrites == old(nwrites)
 //@   ensures b.tx.db.data == old(b.tx.db.data) && b.tx.db.meta0 == old(b.tx.db.meta0) && b.tx.db.meta1 == old(b.tx.db.meta1) && b.tx.db.datasz == old(b.tx.db.datasz)
 //@   ensures forall m *common.Meta :: allocated(m) && m != b.tx.meta ==> metavalid(m) == old(metavalid(m))
 
 //@ func (*Bucket).spill
 //@   opaque
 //@   returns (err)
-//@   ensures txframe(b.tx) && unsynced == old(unsynced) && nwrites == old(nwrites)
+//@   ensures b.tx == old(b.tx) && txframe(b.tx) && unsynced == old(unsynced) && nwrites == old(nwrites)
 //@   ensures b.tx.meta.pgid >= old(b.tx.meta.pgid) && b.tx.meta.pgid <= old(b.tx.meta.pgid) + 4294967296
 //@   ensures (b.tx.meta.pgid + 1) * b.tx.db.pageSize <= b.tx.db.datasz && b.tx.db.datasz >= 0
 //@   ensures b.tx.db.data == nil || (b.tx.db.meta0 != nil && b.tx.db.meta1 != nil && (metavalid(b.tx.db.meta0) || metavalid(b.tx.db.meta1)))
